@@ -18,6 +18,7 @@ import (
 	"sort"
 	"strconv"
 	"strings"
+	"sync/atomic"
 	"testing"
 	"testing/synctest"
 	"time"
@@ -86,10 +87,9 @@ func (s *vsShim) enter(m string) {
 	}
 	x := s.x
 	x.sched.Yield(nil, "be."+m+".pre")
-	if x.inflight > 0 {
-		x.res.Probes["overlapping_backend_calls"]++
+	if x.inflight.Add(1) > 1 {
+		x.nOverlap.Add(1)
 	}
-	x.inflight++
 	name := x.taskName()
 	if x.lastCaller != "" && x.lastCaller != name {
 		x.switches++
@@ -101,7 +101,7 @@ func (s *vsShim) leave(m string) {
 	if !s.active {
 		return
 	}
-	s.x.inflight--
+	s.x.inflight.Add(-1)
 	s.x.sched.Yield(nil, "be."+m+".post")
 }
 
@@ -159,13 +159,15 @@ type vsC30 struct {
 	res   *sim.Result
 	sched *sim.Sched
 	// bookkeeping written only by the one causally active chain of goroutines
-	inflight   int
+	inflight   atomic.Int64
 	switches   int
 	lastCaller string
 	tasks      map[uint64]string // goroutine id -> connection name
 	// oracleLockSafe: a BeforeLock hook precedes oracle.Lock() in this tree, so a
 	// task may park while holding the oracle mutex (others spin in BeforeLock).
-	oracleLockSafe bool
+	oracleLockSafe atomic.Bool
+	// counters bumped from SUT goroutines (copied into res.Probes at the end)
+	nSiteReached, nSkippedUnderLock, nOverlap atomic.Int64
 }
 
 func vsGID() uint64 {
@@ -213,8 +215,8 @@ func vsUnderOracleLock() bool {
 // durably blocked and synctest.Wait would never return.
 func (x *vsC30) installHooks() {
 	verifhook.BeforeLockFn = func(l verifhook.TryLocker) {
-		if !x.oracleLockSafe && strings.HasSuffix(fmt.Sprintf("%T", l), ".oracle") {
-			x.oracleLockSafe = true
+		if !x.oracleLockSafe.Load() && strings.HasSuffix(fmt.Sprintf("%T", l), ".oracle") {
+			x.oracleLockSafe.Store(true)
 		}
 		x.sched.BeforeLock(l)
 	}
@@ -222,9 +224,11 @@ func (x *vsC30) installHooks() {
 		if !vsC30Site(site) {
 			return
 		}
-		if !x.oracleLockSafe && vsUnderOracleLock() {
+		if !x.oracleLockSafe.Load() && vsUnderOracleLock() {
+			x.nSkippedUnderLock.Add(1)
 			return
 		}
+		x.nSiteReached.Add(1)
 		x.sched.Yield(owner, site)
 	}
 }
@@ -267,6 +271,13 @@ func vsExecC30(t *testing.T, c *sim.Case) *sim.Result {
 	if raft {
 		backendName = "raft"
 	}
+	// Tasks that wait inside the SUT for the same event (two transactions waiting
+	// in WaitForMark for a commit that is in its coalescing window) are woken
+	// together and would then run in parallel, racing for the oracle mutex; no
+	// yield site lies between the wake-up and that lock. On one P they run one
+	// after the other in the order the runtime readied them.
+	prevProcs := runtime.GOMAXPROCS(1)
+	defer runtime.GOMAXPROCS(prevProcs)
 	synctest.Test(t, func(t *testing.T) {
 		x := &vsC30{c: c, res: res, tasks: map[uint64]string{}}
 		shim := &vsShim{x: x}
@@ -393,6 +404,7 @@ func vsExecC30(t *testing.T, c *sim.Case) *sim.Result {
 			time.Sleep(time.Millisecond)
 			synctest.Wait()
 			res.SimTime += time.Millisecond
+			res.Faults["clock_advance_while_all_blocked"]++
 		}
 		res.Sched = x.sched.Recorded
 		x.sched.Passthrough()
@@ -485,7 +497,14 @@ func vsExecC30(t *testing.T, c *sim.Case) *sim.Result {
 					"%d SET NX commands on the absent key %s replied OK: %s (final GET %s)", len(winners), key, strings.Join(winners, "; "), get(key))
 			}
 		}
+		res.Faults["run_"+backendName]++
+		if n := int(x.nOverlap.Load()); n > 0 {
+			res.Faults["backend_calls_overlapped"] += n
+		}
 		res.Probes["caller_switches"] += x.switches
+		res.Probes["overlapping_backend_calls"] += int(x.nOverlap.Load())
+		res.Probes["sut_yield_site_reached"] += int(x.nSiteReached.Load())
+		res.Probes["sut_yield_skipped_under_oracle_lock"] += int(x.nSkippedUnderLock.Load())
 		res.Nontrivial = x.switches >= 2
 	})
 	return res
